@@ -16,7 +16,7 @@ def _lit(rng, clock, v):
 
 
 def gen_program(rng, clock=None, n_events=None, with_bad=True, with_cancel=True, horizon=None, faults=False,
-                warm=None, beyond=True, bigint=False):
+                warm=None, beyond=True, bigint=False, initial=True):
     clock = clock or rng.choice(["float", "int", "duration"])
     length = horizon or rng.choice([10, 20, 50])
     start = rng.choice([0, 0, 0, 5]) if clock != "duration" else 0
@@ -91,9 +91,15 @@ def gen_program(rng, clock=None, n_events=None, with_bad=True, with_cancel=True,
                                                        rng.choice(["neg", "negf", "nan", "none", "str", "past", "negtiny"])])
         if faults and rng.random() < faults:
             acts.insert(rng.randrange(len(acts) + 1), ["raise"])
-    return {"clock": clock, "rep": {"start": _lit(rng, clock, start) if clock != "duration" else [float(start), "s"],
+    prog = {"clock": clock, "rep": {"start": _lit(rng, clock, start) if clock != "duration" else [float(start), "s"],
                                     "warmup": _lit(rng, clock, warmup), "length": _lit(rng, clock, length)},
             "init": init, "handlers": handlers}
+    if initial and rng.random() < 0.3:
+        # the other documented way to get first events on the list: a method registered once with add_initial_method,
+        # executed in every initialize right after construct_model
+        cut = rng.randrange(len(init))
+        prog["init"], prog["initial"] = init[:cut], init[cut:]
+    return prog
 
 
 def add_stats(rng, prog, kinds=("counter", "tally", "wtally", "persistent"), watch=True, density=0.7):
@@ -116,7 +122,7 @@ def add_stats(rng, prog, kinds=("counter", "tally", "wtally", "persistent"), wat
             if rng.random() < density:
                 acts.insert(rng.randrange(len(acts) + 1), obs())
     # leaf events (no handler entry yet) observe as well
-    for acts in list(prog["handlers"].values()) + [prog["init"]]:
+    for acts in list(prog["handlers"].values()) + [prog["init"], prog.get("initial", [])]:
         for a in acts:
             if a[0] in ("rel", "abs", "ev", "now"):
                 child = a[3] if a[0] != "now" else a[2]
